@@ -34,11 +34,21 @@ Proof. exact path_dangling_not_closed. Qed.
 Print Assumptions C14_dangling_refutes_closed.
 
 (** With a checked rank certificate the first-token hint of every reachable element is computed
-    without looping and without the self-reference panic. *)
+    without looping, without blocking in the [OnceLock] of a [Ref] that is asked again from its own
+    initialiser, and without the self-reference panic. *)
 Theorem C14_simple_terminates : forall g K ranks,
   closed_except_b g K = true -> rank_ok_b g (reach g) ranks = true ->
   forall n, reachable g n ->
   exists r, rank_of (mk_ranks ranks) n = Some r /\
-    forall f, (N.to_nat r < f)%nat -> simple g f [] n <> SFuel /\ simple g f [] n <> SSelfRef.
+    forall f, (N.to_nat r < f)%nat ->
+      simple g f [] [] n <> SFuel /\ simple g f [] [] n <> SHang /\ simple g f [] [] n <> SSelfRef.
 Proof. exact simple_terminates_reachable. Qed.
 Print Assumptions C14_simple_terminates.
+
+(** Conversely a checked left-corner cycle through an element reachable from [FileSegment] (what the
+    translator reports when it cannot rank a dialect) refutes every rank certificate. *)
+Theorem C14_reachable_cycle_no_certificate : forall g K path cyc,
+  closed_except_b g K = true -> reachable_cycle_b g path cyc = true ->
+  forall ranks, rank_ok_b g (reach g) ranks = false.
+Proof. exact reachable_cycle_no_certificate. Qed.
+Print Assumptions C14_reachable_cycle_no_certificate.
